@@ -4,6 +4,7 @@ package server
 
 import (
 	"net"
+	"net/netip"
 	"time"
 
 	"github.com/miekg/dns"
@@ -113,4 +114,76 @@ func VerifC11FlushStaged(ids []uint16, ports []int) (stillStaged int, available 
 	cur.burst = &burst
 	cur.FlushStaged()
 	return burst.n, true
+}
+
+// verifC11Inline is a scripted inlineRawHandler: the inline pass writes a
+// reply or not, marks hand-off or not, panics or not.
+type verifC11Inline struct {
+	wrote, handoff, panics bool
+	replays                int
+	replayWrote            bool
+}
+
+func (h *verifC11Inline) ServeRaw(w middleware.Transport, raw []byte, _ time.Time) bool { return true }
+func (h *verifC11Inline) InlineReady() bool                                              { return true }
+func (h *verifC11Inline) ServeRawInline(w middleware.Transport, raw []byte, _ time.Time) bool {
+	if h.wrote {
+		_, _ = w.Write(raw)
+	}
+	if h.panics {
+		panic("c11: scripted inline panic")
+	}
+	return !h.handoff
+}
+func (h *verifC11Inline) ServeRawReplay(w middleware.Transport, raw []byte, _ time.Time) bool {
+	h.replays++
+	if h.replayWrote {
+		_, _ = w.Write(raw)
+	}
+	return true
+}
+
+// VerifC11ServeInline runs the REAL udpEngine.serveInline on a job in the
+// reading state (and, when it hands the job back, the worker's serve on it)
+// against a handler scripted with what the inline pass does. It reports what
+// the engine did with the job: datagrams staged for sending, replay passes,
+// releases back to the ring.
+func VerifC11ServeInline(wrote, handoff, panics, replayWrote bool) (staged, replays, releases int, available bool) {
+	srv, err := net.ListenUDP("udp", &net.UDPAddr{IP: net.IPv4(127, 0, 0, 1)})
+	if err != nil {
+		return 0, 0, 0, false
+	}
+	defer srv.Close()
+	h := &verifC11Inline{wrote: wrote, handoff: handoff, panics: panics, replayWrote: replayWrote}
+	e := newUDPEngine(h, []*net.UDPConn{srv}, false, 1, 8, defaultResourcePlan(1))
+	if e.inline == nil {
+		return 0, 0, 0, false
+	}
+	j := e.take(0)
+	if j == nil {
+		return 0, 0, 0, false
+	}
+	j.transition(udpJobFree, udpJobReading)
+	q := new(dns.Msg)
+	q.SetQuestion("inline.c11.test.", dns.TypeA)
+	pkt, _ := q.Pack()
+	j.rxLen = copy(j.rx[:], pkt)
+	j.pc = srv
+	j.readTime = time.Now()
+	j.setRemote(netip.MustParseAddrPort("127.0.0.1:9"))
+	leased0 := e.leased.Load()
+	readerBurst := udpTXBurst{slot: 1}
+	done := e.serveInline(j, &readerBurst)
+	staged += readerBurst.n
+	workerBurst := udpTXBurst{slot: 0}
+	if !done {
+		j.state = udpJobQueued // enqueueCounted
+		e.serve(j, &workerBurst)
+		staged += workerBurst.n
+	}
+	// the send releases staged jobs; count what came back to the ring
+	readerBurst.release()
+	workerBurst.release()
+	releases = int(leased0 - e.leased.Load())
+	return staged, h.replays, releases, true
 }
